@@ -41,6 +41,27 @@ def qualifier(inv, case, rec):
                      for v in case['problem']['fleet']['vehicles'] for sh in v['shifts'] for b in sh.get('breaks') or [])
         if offset:
             return 'seeded-with-offset-break'
+    if case.get('init') and inv in ('PlacesAndWindows', 'ShiftEnd', 'LimitDuration', 'DepartureNotAfterLatest'):
+        # seeded runs whose seed carries an advanced (rescheduled) departure: the search works on tours that do not leave at the shift start
+        if any(t['stops'] and t['stops'][0]['time']['departure'] != t['stops'][0]['time']['arrival'] for t in case['init'].get('tours', [])):
+            return 'seeded-with-advanced-departure'
+    if inv == 'ConditionalDistinct':
+        # a break / reload used more often in a tour than the shift defines (as opposed to one that is not defined for the shift at all)
+        for t in rec.get('tours', []):
+            try:
+                sh = rec['vehicles'][t['vix'] - 1]['shifts'][t['shift'] - 1]
+            except (IndexError, KeyError):
+                continue
+            for kind in ('break', 'reload'):
+                used = sum(1 for a in t['flat'] if a['type'] == kind)
+                if used > len(sh.get(kind + 's', [])):
+                    return 'used-more-often-than-defined'
+    if inv == 'PartitionJobs' and case.get('problem', {}).get('plan', {}).get('relations'):
+        served = {a['jix'] for t in rec.get('tours', []) for a in t['flat'] if a.get('jix', 0) > 0}
+        listed = {u['jix'] for u in rec.get('unassigned', [])}
+        lost = [j for j in range(1, len(rec.get('jobs', [])) + 1) if j not in served and j not in listed]
+        if lost and not (served & listed):
+            return 'relation-problem-job-neither-served-nor-unassigned'
     if inv == 'Reach':
         return 'pairwise-unreachable' if case.get('unreach_mode') == 'pairwise' else 'location-unreachable'
     if inv == 'LimitDuration':
@@ -52,6 +73,8 @@ def qualifier(inv, case, rec):
         idle = [t for t in rec.get('tours', []) if not any(a.get('jix', 0) > 0 for a in t['flat'])]
         if idle and all(any(a['type'] == 'break' for a in t['flat']) and all(a['type'] in ('departure', 'arrival', 'break') for a in t['flat']) for t in idle):
             return 'break-only-tour'
+        if idle and all(all(a['type'] in ('departure', 'arrival') for a in t['flat']) for t in idle) and any(f in case.get('features', []) for f in ('reloads', 'resources')):
+            return 'empty-tour-in-reload-problem'
     return 'general'
 
 
